@@ -29,6 +29,8 @@ class SeqView:
 
 
 def seq_view(models, eng, v, st):
+    if isinstance(v, VDyn) and st.known(t.app('(_ is VBytes)', t.BOOL, v.t)) is True:
+        v = eng.dyn_bytes(v, st)
     if isinstance(v, VBytes):
         return SeqView(v.len, lambda i: VInt(v.at(i)))
     if isinstance(v, VRef):
@@ -490,12 +492,35 @@ def call_builtin(models, eng, name, args, kws, st, node):
                 tb = t.app('(_ is VBytes)', t.BOOL, a0.t)
 
                 def go(st1):
-                    d2 = VBytes(t.app('barr', t.ARR, a0.t), t.app('boff', t.INT, a0.t), t.app('blen', t.INT, a0.t))
-                    st1.assume(t.ge(d2.len, t.ZERO))
+                    d2 = eng.dyn_bytes(a0, st1)
                     return [(st1, streams.new_bytesio(eng, st1, d2))]
                 return eng.typed(st, tb, go, 'BytesIO(non-bytes)')
             return eng.raise_(st, 'TypeError', origin='BytesIO(non-bytes)')
         return [(st, streams.new_bytesio(eng, st, b))]
+    if name == 'iter' and len(args) == 1:
+        it = iterate(models, eng, a0, st)
+        if it is None:
+            raise OutOfReach('iter(%r)' % (a0,))
+        return [(st, st.alloc(OIter(it, t.ZERO), 'iterator'))]
+    if name == 'next' and len(args) == 1 and isinstance(a0, VRef) and isinstance(st.get(a0), OIter):
+        o = st.get(a0)
+        it = o.it
+        if it.what == 'concrete':
+            if o.idx.op == 'int' and o.idx.args[0] < len(it.items):
+                st.put(a0, OIter(it, I(o.idx.args[0] + 1)))
+                return [(st, it.items[o.idx.args[0]])]
+            if o.idx.op == 'int':
+                return eng.raise_(st, 'StopIteration', origin='next() on an exhausted iterator')
+            raise OutOfReach('symbolic position in a concrete iterator')
+        out = []
+        more, done = eng.fork(st, t.lt(o.idx, it.n)) if it.n is not None else (st, None)
+        if more is not None:
+            item = it.item(eng, more, o.idx)
+            more.put(a0, OIter(it, t.add(o.idx, t.ONE)))
+            out.append((more, item))
+        if done is not None:
+            out.extend(eng.raise_(done, 'StopIteration', origin='next() on an exhausted iterator'))
+        return out
     if name in ('iter', 'next', 'hasattr', 'getattr', 'id', 'sorted', 'super', 'object', 'slice'):
         if models.interface is not None:
             r = models.interface.builtin(eng, name, args, kws, st, node)
@@ -691,6 +716,9 @@ def construct_class(models, eng, cls, args, kws, st, node):
     if name == 'ListContainer':
         if not args:
             return [(st, st.alloc(OList(items=(), cls='ListContainer'), 'list'))]
+        if len(args) == 1 and isinstance(args[0], VRef) and isinstance(st.get(args[0]), OList):
+            o = st.get(args[0])
+            return [(st, st.alloc(OList(items=o.items, arr=o.arr, ln=o.len, ekind=o.ekind, cls='ListContainer'), 'list'))]
     if name in ('EnumInteger', 'BitwisableString', 'HexDisplayedBytes', 'HexDumpDisplayedBytes', 'HexDisplayedDict', 'HexDumpDisplayedDict') and len(args) == 1:
         # display subclasses of int/str/bytes/dict: modelled as their base value (== and hashing are inherited)
         return [(st, args[0])]
@@ -741,6 +769,14 @@ def call_method(models, eng, recv, name, args, kws, st, node):
                 if it is not None and it.what == 'concrete':
                     st.put(recv, OList(items=o.items + tuple(it.items), cls=o.cls))
                     return [(st, NONE)]
+        if isinstance(o, OIter):
+            return None
+        if isinstance(o, ODict) and o.items is None:
+            if name == 'get':
+                kt = eng.to_dyn(args[0], st)
+                d = args[1] if len(args) > 1 else NONE
+                return [(st, VDyn(t.ite(t.T(t.BOOL, 'select', (o.has, kt)), t.T(t.VAL, 'select', (o.get, kt)), eng.to_dyn(d, st))))]
+            return None
         if isinstance(o, ODict):
             if name == 'get':
                 try:
@@ -863,7 +899,11 @@ def havoc_object(eng, st, ref, name, writes=True):
     elif isinstance(o, OContainer):
         pass        # heap havoc is handled by the interface
     elif isinstance(o, ODict):
-        raise OutOfReach('dict mutated in a loop with invariant')
+        st.put(ref, ODict(has=fresh(name + '_has', 'VMapHas'), get=fresh(name + '_get', 'VMapGet')))
+    elif isinstance(o, OIter):
+        k = fresh(name + '_idx', t.INT)
+        st.assume(t.ge(k, t.ZERO))
+        st.put(ref, OIter(o.it, k))
     elif isinstance(o, OObject):
         raise OutOfReach('object mutated in a loop with invariant')
 
@@ -913,7 +953,7 @@ def havoc_loop(models, eng, node, st, spec):
         v = st.env.get(name)
         if isinstance(v, VRef):
             o = st.get(v)
-            if isinstance(o, OStream) or name in mutated:
+            if isinstance(o, (OStream, OIter)) or name in mutated:
                 havoc_object(eng, st, v, 'h_' + name, writes)
     # objects reachable only through self-like objects (streams in OObject fields) are handled by interface
     if models.interface is not None:
